@@ -107,6 +107,12 @@ __attribute__((noinline)) void poison_stack(unsigned seed) {
     asm volatile("" :: "r"(buf) : "memory");
 }
 
+__attribute__((noinline)) void poison_stack_deep(unsigned seed) {
+    volatile unsigned char buf[98304];
+    for (unsigned i = 0; i < sizeof buf; ++i) buf[i] = (unsigned char)((seed * 59u + i * 13u + (i >> 9)) | 0x21u);
+    asm volatile("" :: "r"(buf) : "memory");
+}
+
 long perf_open(std::uintptr_t addr, unsigned len, int group) {
     struct perf_event_attr pe; std::memset(&pe, 0, sizeof pe);
     pe.type = PERF_TYPE_BREAKPOINT; pe.size = sizeof pe; pe.bp_type = HW_BREAKPOINT_RW; pe.bp_addr = addr;
@@ -267,7 +273,8 @@ struct MemEngine : Engine {
 
     // executes the call with the requested fault kind; returns false if the operation was aborted
     bool run_call(const Call& c, unsigned poison, long tf_k, long* tf_total, int* tf_fired, int wfd_leader) {
-        g_nfaults = 0; g_nopened = 0; g_abort_reason = 0;
+        restore_opened();              // pages a previous execution of this step made accessible must not stay so
+        g_nfaults = 0; g_abort_reason = 0;
         sigjmp_buf jb; bool ok = true;
         if (poison) { poison_stack(poison); tag_bytes(poison * 977u, garbage, 64); sim_poison_vector_regs(garbage, cpu_level); }
         if (sigsetjmp(jb, 1) == 0) {
@@ -555,6 +562,9 @@ struct MemEngine : Engine {
     void execute(const Plan& pl, RunResult& r, Stats& s) override {
         rr = &r; st = &s; r.log.line(pl.head.text());
         unsigned memseed = (unsigned)pl.head.unum("mem", 1);
+        // whatever the previous run left on the stack or in vector registers is replaced by plan-determined garbage,
+        // so that steps without an explicit poison still see a history that is a function of THIS plan only
+        poison_stack_deep(memseed * 7u + 3u); tag_bytes(memseed * 31u + 5u, garbage, 64); sim_poison_vector_regs(garbage, cpu_level);
         apply_pages("WWWWWWWW");
         for (std::size_t i = 0; i < WBYTES; ++i) model[i] = init_byte(memseed, i);
         std::memcpy(g_host, model, WBYTES);
